@@ -1,7 +1,7 @@
 import RP.Lemmas.Codec
 import RP.Lemmas.Abs
-import RP.Props.C15Pairs.All
 import RP.Props.C15Pairs.AllP
+import RP.Props.C15Pairs.All4
 /-! # C15 — Compact numeric encodings are lossless
 
 Theorems about the packings of `RP/Model/Codec.lean` (the definitions the driver `drv_c15` runs
@@ -522,45 +522,6 @@ theorem C15_pair_collision_low_bits (s s' i j i' j' : Nat) (hs : s < 4) (hs' : s
 
 theorem learned_small : ∀ sk ∈ learned, sk.1 < 4 ∧ sk.2 ≤ 256 := by decide
 
-theorem mem_entries (s i j : Nat) (hs : s = 1 ∨ s = 2 ∨ s = 3) (hij : i < j) (hj : j < nAbstractions s) :
-    (s, i, fastKey s i j) ∈ entries (i ^^^ j) := by
-  have hx : i ^^^ (i ^^^ j) = j := by rw [← Nat.xor_assoc, Nat.xor_self, Nat.zero_xor]
-  unfold entries
-  rw [List.mem_flatMap]
-  refine ⟨(s, nAbstractions s), by rcases hs with rfl | rfl | rfl <;> decide, ?_⟩
-  rw [List.mem_filterMap]
-  refine ⟨i, List.mem_range.mpr (by omega), ?_⟩
-  simp only [hx, hij, hj, and_self, if_true, force_eq]
-
-/-- **Pair keys are collision-free**: inside the flop, turn and river bucket sets and across the three,
-two unordered pairs `{i, j}` (written `i < j`) with the same key are the same pair of the same street.
-Covers all C(128,2) + C(144,2) + C(101,2) = 23,474 keys (the counts are the generated constants). -/
-theorem C15_pair_keys_distinct (s s' i j i' j' : Nat) (hs : s = 1 ∨ s = 2 ∨ s = 3) (hs' : s' = 1 ∨ s' = 2 ∨ s' = 3)
-    (hij : i < j) (hj : j < nAbstractions s) (hij' : i' < j') (hj' : j' < nAbstractions s')
-    (h : pairKey (absOf s i) (absOf s j) = pairKey (absOf s' i') (absOf s' j')) : s = s' ∧ i = i' ∧ j = j' := by
-  have hk : nAbstractions s ≤ 256 := by rcases hs with rfl | rfl | rfl <;> decide
-  have hk' : nAbstractions s' ≤ 256 := by rcases hs' with rfl | rfl | rfl <;> decide
-  have hs4 : s < 4 := by omega
-  have hs4' : s' < 4 := by omega
-  have hd := C15_pair_collision_low_bits s s' i j i' j' hs4 hs4' (by omega) (by omega) (by omega) (by omega) h
-  have hlt : i ^^^ j < 2^8 := Nat.xor_lt_two_pow (by omega) (by omega)
-  have hr := RP.C15Pairs.all_d (i ^^^ j) hlt
-  have m1 := mem_entries s i j hs hij hj
-  have m2 := mem_entries s' i' j' hs' hij' hj'
-  rw [← hd] at m2
-  rw [pairKey_fast _ _ _ hs4, pairKey_fast _ _ _ hs4'] at h
-  have e := rdx_spec 44 _ hr _ m1 _ m2 h
-  have e1 : s = s' := congrArg (·.1) e
-  have e2 : i = i' := congrArg (·.2.1) e
-  refine ⟨e1, e2, ?_⟩
-  have : i ^^^ (i ^^^ j) = i' ^^^ (i' ^^^ j') := by rw [hd, e2]
-  rwa [← Nat.xor_assoc, Nat.xor_self, Nat.zero_xor, ← Nat.xor_assoc, Nat.xor_self, Nat.zero_xor] at this
-
-/-- within one street's bucket set -/
-theorem C15_pair_keys_distinct_within (s i j i' j' : Nat) (hs : s = 1 ∨ s = 2 ∨ s = 3)
-    (hij : i < j) (hj : j < nAbstractions s) (hij' : i' < j') (hj' : j' < nAbstractions s)
-    (h : pairKey (absOf s i) (absOf s j) = pairKey (absOf s i') (absOf s j')) : i = i' ∧ j = j' :=
-  (C15_pair_keys_distinct s s i j i' j' hs hs hij hj hij' hj' h).2
 /-- **Preflop layer** (beyond the property's three learned streets; needed by C13): the 169 preflop
 classes are kept as centroids and `Layer::metric` stores their C(169,2) = 14,196 pairwise distances under
 the same XOR keys; inside that set two unordered pairs with the same key are the same pair. -/
@@ -581,15 +542,6 @@ theorem C15_pair_keys_distinct_pref (i j i' j' : Nat)
   have : i ^^^ (i ^^^ j) = i' ^^^ (i' ^^^ j') := by rw [hd, e2]
   rwa [← Nat.xor_assoc, Nat.xor_self, Nat.zero_xor, ← Nat.xor_assoc, Nat.xor_self, Nat.zero_xor] at this
 
-/-- within the bucket set of any of the **four** streets -/
-theorem C15_pair_keys_distinct_within4 (s i j i' j' : Nat) (hs : s < 4)
-    (hij : i < j) (hj : j < nAbstractions s) (hij' : i' < j') (hj' : j' < nAbstractions s)
-    (h : pairKey (absOf s i) (absOf s j) = pairKey (absOf s i') (absOf s j')) : i = i' ∧ j = j' := by
-  have : s = 0 ∨ s = 1 ∨ s = 2 ∨ s = 3 := by omega
-  rcases this with rfl | hs'
-  · exact C15_pair_keys_distinct_pref i j i' j' hij hj hij' hj' h
-  · exact C15_pair_keys_distinct_within s i j i' j' hs' hij hj hij' hj' h
-
 /-- **Observation outside the property** (its text says "across the three learned streets"): the
 four-street statement is FALSE. `Metric::sources` uploads the metric files of all four streets into one
 table keyed by `xor`; three preflop pair keys coincide with a turn or river pair key
@@ -608,14 +560,110 @@ theorem C15_four_streets_not_collision_free :
     C15_pref_cross_street_collisions.1).1
   omega
 
+/-- the three preflop pairs whose key is shared with a turn / river pair -/
+def knownCollision (s i j : Nat) : Prop := s = 0 ∧ ((i = 8 ∧ j = 40) ∨ (i = 16 ∧ j = 48) ∨ (i = 27 ∧ j = 91))
+
+theorem mem_fourLayers (s : Nat) (hs : s < 4) : (s, nAbstractions s) ∈ fourLayers := by
+  have : s = 0 ∨ s = 1 ∨ s = 2 ∨ s = 3 := by omega
+  rcases this with rfl | rfl | rfl | rfl <;> decide
+
+theorem mem_entries4x (s i j : Nat) (hs : s < 4) (hij : i < j) (hj : j < nAbstractions s)
+    (hk : ¬ knownCollision s i j) : (s, i, fastKey s i j) ∈ entries4x (i ^^^ j) := by
+  unfold entries4x
+  rw [List.mem_filter]
+  refine ⟨mem_entriesOf fourLayers s _ i j (mem_fourLayers s hs) hij hj, ?_⟩
+  have hx : i ^^^ (i ^^^ j) = j := by rw [← Nat.xor_assoc, Nat.xor_self, Nat.zero_xor]
+  simp only [excepted, Bool.not_eq_true', Bool.and_eq_false_iff, beq_eq_false_iff_ne, ne_eq]
+  by_cases h0 : s = 0
+  · right
+    subst h0
+    have hk' : ¬ ((i = 8 ∧ j = 40) ∨ (i = 16 ∧ j = 48) ∨ (i = 27 ∧ j = 91)) := fun h => hk ⟨rfl, h⟩
+    simp only [Bool.or_eq_false_iff, Bool.and_eq_false_iff, beq_eq_false_iff_ne, ne_eq]
+    refine ⟨?_, ?_⟩
+    · by_cases hd : i ^^^ j = 32
+      · right
+        refine ⟨?_, ?_⟩
+        · intro hi; apply hk'; left; refine ⟨hi, ?_⟩
+          rw [← hx, hd, hi]; decide
+        · intro hi; apply hk'; right; left; refine ⟨hi, ?_⟩
+          rw [← hx, hd, hi]; decide
+      · left; exact hd
+    · by_cases hd : i ^^^ j = 64
+      · right
+        intro hi; apply hk'; right; right; refine ⟨hi, ?_⟩
+        rw [← hx, hd, hi]; decide
+      · left; exact hd
+  · left; exact h0
+
+/-- **Every collision in the four-street key space involves one of the three listed preflop pairs**:
+over the 37,670 keys of the preflop (169), flop (128), turn (144) and river (101) bucket sets together,
+two unordered pairs with the same key are the same pair of the same street, or one of them is the
+preflop pair (8, 40), (16, 48) or (27, 91). With `C15_pref_cross_street_collisions` this describes the
+key collisions of the uploaded `metric` table completely. -/
+theorem C15_four_streets_collisions_only (s s' i j i' j' : Nat) (hs4 : s < 4) (hs4' : s' < 4)
+    (hij : i < j) (hj : j < nAbstractions s) (hij' : i' < j') (hj' : j' < nAbstractions s')
+    (h : pairKey (absOf s i) (absOf s j) = pairKey (absOf s' i') (absOf s' j')) :
+    (s = s' ∧ i = i' ∧ j = j') ∨ knownCollision s i j ∨ knownCollision s' i' j' := by
+  by_cases hk : knownCollision s i j
+  · exact Or.inr (Or.inl hk)
+  by_cases hk' : knownCollision s' i' j'
+  · exact Or.inr (Or.inr hk')
+  left
+  have hn : ∀ t, t < 4 → nAbstractions t ≤ 256 := by
+    intro t ht
+    have : t = 0 ∨ t = 1 ∨ t = 2 ∨ t = 3 := by omega
+    rcases this with rfl | rfl | rfl | rfl <;> decide
+  have hk1 := hn s hs4
+  have hk2 := hn s' hs4'
+  have hd := C15_pair_collision_low_bits s s' i j i' j' hs4 hs4' (by omega) (by omega) (by omega) (by omega) h
+  have hlt : i ^^^ j < 2^8 := Nat.xor_lt_two_pow (by omega) (by omega)
+  have hr := RP.C15Pairs.all_d4 (i ^^^ j) hlt
+  have m1 := mem_entries4x s i j hs4 hij hj hk
+  have m2 := mem_entries4x s' i' j' hs4' hij' hj' hk'
+  rw [← hd] at m2
+  rw [pairKey_fast _ _ _ hs4, pairKey_fast _ _ _ hs4'] at h
+  have e := rdx_spec 44 _ hr _ m1 _ m2 h
+  have e1 : s = s' := congrArg (·.1) e
+  have e2 : i = i' := congrArg (·.2.1) e
+  refine ⟨e1, e2, ?_⟩
+  have : i ^^^ (i ^^^ j) = i' ^^^ (i' ^^^ j') := by rw [hd, e2]
+  rwa [← Nat.xor_assoc, Nat.xor_self, Nat.zero_xor, ← Nat.xor_assoc, Nat.xor_self, Nat.zero_xor] at this
+
+/-- **Pair keys are collision-free** (the property's statement): inside the flop, turn and river bucket
+sets and across the three, two unordered pairs `{i, j}` (written `i < j`) with the same key are the same
+pair of the same street. Covers all C(128,2) + C(144,2) + C(101,2) = 23,474 keys (the counts are the
+generated constants). A corollary of the four-street table: the listed exceptions are preflop pairs. -/
+theorem C15_pair_keys_distinct (s s' i j i' j' : Nat) (hs : s = 1 ∨ s = 2 ∨ s = 3) (hs' : s' = 1 ∨ s' = 2 ∨ s' = 3)
+    (hij : i < j) (hj : j < nAbstractions s) (hij' : i' < j') (hj' : j' < nAbstractions s')
+    (h : pairKey (absOf s i) (absOf s j) = pairKey (absOf s' i') (absOf s' j')) : s = s' ∧ i = i' ∧ j = j' := by
+  rcases C15_four_streets_collisions_only s s' i j i' j' (by omega) (by omega) hij hj hij' hj' h with h | h | h
+  · exact h
+  · exact absurd h.1 (by omega)
+  · exact absurd h.1 (by omega)
+
+/-- within one street's bucket set -/
+theorem C15_pair_keys_distinct_within (s i j i' j' : Nat) (hs : s = 1 ∨ s = 2 ∨ s = 3)
+    (hij : i < j) (hj : j < nAbstractions s) (hij' : i' < j') (hj' : j' < nAbstractions s)
+    (h : pairKey (absOf s i) (absOf s j) = pairKey (absOf s i') (absOf s j')) : i = i' ∧ j = j' :=
+  (C15_pair_keys_distinct s s i j i' j' hs hs hij hj hij' hj' h).2
+/-- within the bucket set of any of the **four** streets -/
+theorem C15_pair_keys_distinct_within4 (s i j i' j' : Nat) (hs : s < 4)
+    (hij : i < j) (hj : j < nAbstractions s) (hij' : i' < j') (hj' : j' < nAbstractions s)
+    (h : pairKey (absOf s i) (absOf s j) = pairKey (absOf s i') (absOf s j')) : i = i' ∧ j = j' := by
+  have : s = 0 ∨ s = 1 ∨ s = 2 ∨ s = 3 := by omega
+  rcases this with rfl | hs'
+  · exact C15_pair_keys_distinct_pref i j i' j' hij hj hij' hj' h
+  · exact C15_pair_keys_distinct_within s i j i' j' hs' hij hj hij' hj' h
+
 /-- the key does not depend on the order of the pair -/
 theorem C15_pair_symmetric (a b : Abs) : pairKey a b = pairKey b a := by
   have : C15.pairOp = 0 := rfl
   simp only [pairKey, this, Nat.xor_comm]
 /-- the stored `i64` form of a key -/
 theorem C15_pair_i64 (k : Nat) (h : k < 2^64) : pairOfI64 (pairToI64 k) = k := ofI64_toI64 k h
--- the group d = 1 holds 64 + 72 + 50 keys; 255 such groups make up the 23,474 keys
-example : (entries 1).length = 186 := by decide +kernel
+-- the group d = 1 holds 64 + 72 + 50 keys of the learned streets (255 such groups make up the 23,474 keys)
+-- and 84 more of the preflop layer (37,670 keys in all)
+example : (entries 1).length = 186 ∧ (entriesOf fourLayers 1).length = 270 := by decide +kernel
 example : pairKey (absOf 1 0) (absOf 1 1) = fastKey 1 0 1 ∧ fastKey 1 0 1 % 4096 = 1 := by decide
 
 end RP.C15
